@@ -193,6 +193,8 @@ def sites(job):
                 args = [who] * arity
                 if kind.startswith("rep3m"):
                     args = [who, "zz", who]
+                if kind.startswith("rep3e"):
+                    args = [who, who, "zz"]
                 sym = ("b_" if arity == 2 else "c_") + "_".join(rs)
                 if what in ("fact", "cfact"):
                     return parses(domain, problem_text(objects, init="(%s %s)" % (sym, " ".join(args))))
